@@ -299,7 +299,7 @@ class Executor:
         return ([self.typeof(v, literal) for v in args], {k: self.typeof(v, literal) for k, v in kwargs.items()},
                 [unl(v) for v in args], {k: unl(v) for k, v in kwargs.items()})
 
-    def apply_overload(self, overloader, kw, args, kwargs):
+    def apply_overload(self, overloader, kw, args, kwargs, method=False):
         """-> result of running the impl, trying non-literal then literal typing (prefer_literal=False) as Numba does"""
         nb = self.numba
         order = [True, False] if kw.get("prefer_literal") else [False, True]
@@ -325,6 +325,27 @@ class Executor:
             if impl is None:
                 errs.append(NbTypingError("overload returned None"))
                 continue
+            if method:
+                # overload_method: the lowering re-resolves the call with the FOLDED argument types (parameters not passed
+                # arrive as Omitted(default)); the overloader has to succeed on those too or compilation fails
+                sig = inspect.signature(overloader)
+                ba = sig.bind(*args, **kwargs)
+                fts = [self.typeof(ba.arguments[n_], uselit) if n_ in ba.arguments else nb.types.Omitted(p_.default)
+                       for n_, p_ in sig.parameters.items()]
+                if any(isinstance(t_, nb.types.Omitted) for t_ in fts):
+                    try:
+                        self.stats["overloader_calls"] += 1
+                        impl2 = overloader(*fts)
+                    except nb.core.errors.NumbaError as e:
+                        errs.append(e)
+                        continue
+                    except S.TraceAbort:
+                        raise
+                    except Exception as e:
+                        raise NbTypingError(f"overloader crashed on the folded arguments (lowering): {type(e).__name__}: {e}")
+                    if impl2 is None:
+                        errs.append(NbTypingError("overload returned None for the folded arguments"))
+                        continue
             self.stats["impl_runs"] += 1
             self.depth += 1
             if self.depth > 12:
@@ -351,7 +372,7 @@ class Executor:
             ex = self
 
             def bound(*a, **k):
-                ok, r = ex.apply_overload(f, kw, (v,) + a, k)
+                ok, r = ex.apply_overload(f, kw, (v,) + a, k, method=True)
                 if not ok:
                     raise NbTypingError(f"method {name}: {r}")
                 return r
